@@ -392,12 +392,27 @@ func (W *vWorld) cacheScenario(k int) {
 func vCachedAfterOp(rel bool) {
 	W := vShapeFor(1)
 	q := W.arbQuerySpec(rel)
-	mid := func() { W.cacheScenario(vPick("scenario", 8)) }
+	mid := func() { W.cacheScenario(vPick("scenario", 9)) }
 	if rel {
 		vTypedQuery2RelMid(W, q, true, vPick("perquery", 2) == 1, "cached", mid)
 	} else {
 		vTypedQuery1WalkMid(W, q, true, "cached", mid)
 	}
+	vreach("end")
+}
+
+// uncached queries after the same structural scenarios (stale or duplicated index entries)
+func VerifC03_UnsafeQueryAfterScenario() {
+	W := vShapeRel(1, 60, true, 0)
+	vTighten(W.w)
+	W.cacheScenario(vPick("scenario", 9))
+	vUnsafeQueryWalk(W, W.arbQuerySpec(true), "walk")
+	vreach("end")
+}
+func VerifC03T_TypedQueryAfterScenario() {
+	W := vShapeFor(1)
+	q := W.arbQuerySpec(true)
+	vTypedQuery2RelMid(W, q, false, vPick("perquery", 2) == 1, "walk", func() { W.cacheScenario(vPick("scenario", 9)) })
 	vreach("end")
 }
 func VerifC05_CachedAfterOp()    { vCachedAfterOp(false) }
